@@ -108,7 +108,10 @@ def gen_net(rng):
     # alias: lanelets that list the same signs / lights are constructed with ONE Python set object (Lanelet keeps the
     # caller's set): e.g. approach_lights = {30, 31} handed to both lanelets of an approach
     return {"lanelets": lanelets, "signs": sign_ids, "lights": light_ids, "inters": inters,
-            "alias": rng.random() < 0.25, "moved": rng.choice([0, 0, 0, 0, 1, 2, 3])}
+            "alias": rng.random() < 0.25, "moved": rng.choice([0, 0, 0, 0, 1, 2, 3]),
+            # a second network cut out of this one (create_from_lanelet_list) before the removals: it is not selected
+            # for anything, so whatever is removed here, its content stays what it was
+            "bystander": rng.choice([None, None, None, "cut", "cut", "clean"])}
 
 
 def cell_box(cell):
@@ -503,6 +506,11 @@ def execute(case, chooser=None):
     sc = holder(build(spec))
     start = observe(sc.lanelet_network)
     trace, failures = [], []
+    by = by0 = None
+    if spec.get("bystander"):
+        by = LaneletNetwork.create_from_lanelet_list(list(sc.lanelet_network.lanelets),
+                                                     cleanup_ids=spec["bystander"] == "clean")
+        by0 = observe(by)
     ops = case["ops"]
     step = 0
     while True:
@@ -527,6 +535,16 @@ def execute(case, chooser=None):
             failures.append((f"{sig_name(op)}:{pr[0]}", f"step {step} {op}: {pr[0]}; {pr[1]}"))
         if any(pr[0] not in TOLERATED for pr in prs):
             break
+        if by is not None:
+            by1 = observe(by)
+            if by1 != by0:
+                diff = sorted(k for k in by0["lanelets"] if by1["lanelets"].get(k) != by0["lanelets"][k])[:4] \
+                    if isinstance(by0, dict) and "lanelets" in by0 else "?"
+                failures.append((f"{sig_name(op)}:network cut out before the removal changed",
+                                 f"step {step} {op}: a network built by create_from_lanelet_list(cleanup_ids="
+                                 f"{spec['bystander'] == 'clean'}) from this network's lanelets before the removal has "
+                                 f"different content afterwards (lanelets {diff})"))
+                break
         step += 1
     return failures, trace, start
 
